@@ -30,11 +30,21 @@ import (
 const stringEntry = "tkn20.Policy.ExtractFromCiphertext+String"
 
 func TestC10PolicyStringChild(t *testing.T) {
+	if spec := os.Getenv("C10B_CHILD_FROMSTRING"); spec != "" {
+		// "<atom>:<count>": parse count nested atoms with the default stack limit
+		i := strings.LastIndex(spec, ":")
+		n, _ := strconv.Atoi(spec[i+1:])
+		var p tknPolicy
+		_ = p.FromString(strings.Repeat(spec[:i], n) + "a: b")
+		fmt.Println("CHILD-END")
+		return
+	}
 	path := os.Getenv("C10B_CHILD_INPUTS")
 	if path == "" {
 		t.Skip("helper process of TestC10PolicyString")
 	}
-	debug.SetMaxStack(16 << 20)
+	// String() of a policy with the maximal 65535 gates recurses at most 65535 deep (about 10 MB of stack)
+	debug.SetMaxStack(64 << 20)
 	start, _ := strconv.Atoi(os.Getenv("C10B_CHILD_START"))
 	f, err := os.Open(path)
 	if err != nil {
@@ -173,6 +183,43 @@ func TestC10PolicyString(t *testing.T) {
 		start = culprit + 1
 	}
 	vlib.Note(fmt.Sprintf("Policy.String() helper process: %d accepted mutated ciphertexts", len(inputs)))
+}
+
+// TestC10PolicyDeepNesting (thorough tier): the policy parser is recursive;
+// a 1 MiB string of "(" (or 256 Ki times "not ") must yield an error, not kill
+// the process. Run in a child process with the default 1 GB stack limit.
+func TestC10PolicyDeepNesting(t *testing.T) {
+	defer vlib.Done()
+	if !vlib.Thorough() || vlib.Shard != 0 {
+		t.Skip("thorough tier, shard 0 only (needs up to 2 GB of memory for a moment)")
+	}
+	e := entryByName("tkn20.Policy.FromString")
+	if e == nil {
+		t.Skip("no tkn20 entries")
+	}
+	d := &directTB{t: t}
+	for _, spec := range []string{"(:1048576", "not :262144"} {
+		ctx, cancel := context.WithTimeout(context.Background(), 300*time.Second)
+		cmd := exec.CommandContext(ctx, os.Args[0], "-test.run=^TestC10PolicyStringChild$", "-test.v=true", "-test.timeout=0")
+		cmd.Env = append(os.Environ(), "C10B_CHILD_FROMSTRING="+spec, "VERIF_OUT=")
+		out, err := cmd.CombinedOutput()
+		timedOut := ctx.Err() == context.DeadlineExceeded
+		cancel()
+		if timedOut {
+			t.Fatalf("SELFTEST-FAIL the FromString helper process exceeded its time budget (inconclusive)")
+		}
+		vlib.Eval("decode/tkn20")
+		switch {
+		case strings.Contains(string(out), "CHILD-END"):
+			vlib.NonTrivial("decode/tkn20", "in=policy/deep-nesting-child", []byte(e.Name), []byte(spec))
+		case strings.Contains(string(out), "goroutine stack exceeds"):
+			vlib.Class("decode/tkn20", "panic")
+			d.replay = map[string]interface{}{"entry": e.Name, "input": "strings.Repeat(atom, n) + \"a: b\" with atom:n = " + spec}
+			vlib.Report(d, "C10/panic/"+e.Name+"/stack-overflow", fmt.Sprintf("entry=%s input=%q repeated (atom:count = %s) followed by \"a: b\": fatal error: stack overflow in the recursive-descent parser (not recoverable)", e.Name, spec[:strings.LastIndex(spec, ":")], spec))
+		default:
+			t.Fatalf("SELFTEST-FAIL the FromString helper process failed unexpectedly (%v):\n%s", err, tailStr(string(out), 2000))
+		}
+	}
 }
 
 func tailStr(s string, n int) string {
